@@ -624,7 +624,7 @@ func min(a, b int) int {
 func doNewReq(c *codecCase) Ev {
 	e := Ev{"op": "newreq", "fc": c.Fc, "framing": c.Framing, "unit": c.Unit, "addr": c.Addr, "qty": c.Qty,
 		"data": orEmpty(c.Data), "coils": orEmpty(c.Coils), "waddr": c.Waddr, "tid": 0, "accepted": false,
-		"bytes": []int{}, "explen": 0, "panic": false, "bytes2": []int{}, "bytes3": []int{}, "prevThen": []int{}, "prevNow": []int{}, "bytesProto": []int{}}
+		"bytes": []int{}, "explen": 0, "panic": false, "bytes2": []int{}, "bytes3": []int{}, "prevThen": []int{}, "prevNow": []int{}, "bytesProto": []int{}, "bytesScr": []int{}}
 	func() {
 		defer func() {
 			if p := recover(); p != nil {
@@ -668,8 +668,47 @@ func doNewReq(c *codecCase) Ev {
 			e["prevThen"], e["prevNow"] = lastReqThen, ints(lastReq.Bytes())
 		}
 		lastReq, lastReqThen = r, e["bytes"].([]int)
+		// a request's exported byte slices (and what CoilsToBytes returns) belong to the caller: a second request built
+		// from the same arguments is overwritten field by field, and a THIRD one built afterwards must still encode the
+		// arguments - an encoding is a function of the arguments, not of what happened to earlier packets
+		if r0, err0 := newReq(c); err0 == nil && r0 != nil {
+			scribble(reflect.ValueOf(r0))
+			if c.Fc == 15 {
+				b := packet.CoilsToBytes(coilsOf(c.Coils))
+				for i := range b {
+					b[i] ^= 0x0F // (not 0xFF: if this is the memory scribbled over above, the two must not cancel)
+				}
+			}
+			if r1, err1 := newReq(c); err1 == nil && r1 != nil {
+				if c.Framing == "tcp" {
+					setTid(r1, uint16(e["tid"].(int)))
+				}
+				e["bytesScr"] = ints(r1.Bytes())
+			}
+		}
 	}()
 	return e
+}
+
+// scribble inverts every byte of every settable []byte field reachable from a packet value.
+func scribble(v reflect.Value) {
+	switch v.Kind() {
+	case reflect.Ptr, reflect.Interface:
+		if !v.IsNil() {
+			scribble(v.Elem())
+		}
+	case reflect.Struct:
+		for i := 0; i < v.NumField(); i++ {
+			scribble(v.Field(i))
+		}
+	case reflect.Slice:
+		if v.Type().Elem().Kind() == reflect.Uint8 && v.CanInterface() {
+			b := v.Bytes()
+			for i := range b {
+				b[i] ^= 0xFF
+			}
+		}
+	}
 }
 
 var lastReq packet.Request
